@@ -24,8 +24,9 @@ typedef struct {
 static const cfg_t cfgs[] = {
     { "U0.lock+U1.lock", 1, M_DYN, 2,
       { ACT(A_U0, L_LOCK, U_UNLOCK, 1, 0), ACT(A_U1, L_LOCK, U_UNLOCK, 1, 0) } },
-    { "U0.lock+U0.lock(yield-in-cs)", 1, M_DYN, 2,
-      { ACT(A_U0, L_LOCK, U_UNLOCK, 1, 1), ACT(A_U0, L_LOCK, U_UNLOCK, 1, 1) } },
+    { "U0.lock+U0.lock(yield-in-cs)+X.lock", 1, M_DYN, 3,
+      { ACT(A_U0, L_LOCK, U_UNLOCK, 1, 1), ACT(A_U0, L_LOCK, U_UNLOCK, 1, 1),
+        ACT(A_EXT, L_LOCK, U_UNLOCK, 1, 0) } },
     { "U0.lock+X.lock", 1, M_DYN, 2,
       { ACT(A_U0, L_LOCK, U_UNLOCK, 1, 0), ACT(A_EXT, L_LOCK, U_UNLOCK, 1, 0) } },
     { "U1.lock+T1... tasklet+X", 1, M_DYN, 2,
@@ -53,8 +54,9 @@ static const cfg_t cfgs[] = {
     { "task+task ES1 & U0", 0, M_DYN, 3,
       { ACT(A_TASK1, L_LOCK, U_UNLOCK, 1, 0), ACT(A_U0, L_LOCK, U_UNLOCK, 1, 0),
         ACT(A_U0, L_HIGH, U_UNLOCK, 1, 0) } },
-    { "recursive U0+U0 yield", 0, M_REC, 2,
-      { ACT(A_U0, L_LOCK, U_UNLOCK, 1, 1), ACT(A_U0, L_LOCK, U_UNLOCK, 1, 1) } },
+    { "recursive U0+U0 yield +U1", 0, M_REC, 3,
+      { ACT(A_U0, L_LOCK, U_UNLOCK, 1, 1), ACT(A_U0, L_LOCK, U_UNLOCK, 1, 1),
+        ACT(A_U1, L_LOCK, U_UNLOCK, 1, 0) } },
     { "U0.low+U0.high+X", 0, M_DYN, 3,
       { ACT(A_U0, L_LOW, U_UNLOCK, 1, 0), ACT(A_U0, L_HIGH, U_UNLOCK, 1, 0),
         ACT(A_EXT, L_LOCK, U_UNLOCK, 1, 0) } },
